@@ -21,7 +21,7 @@ func init() {
 		Assume: []string{"a resumable upload is one operation whose window spans all its requests", "listings are not part of this workload", "porcupine Unknown is counted, never reported"},
 		Run: runC07,
 	})
-	expectedProbes["C07"] = []string{"c07.same_generation_writers", "c07.patch_race", "c07.delete_vs_upload", "c07.reader_among_writers", "c07.lock_waited", "c07.cancel_fired", "c07.porcupine_ok", "c07.compose_vs_upload", "c07.cross_bucket_copy"}
+	expectedProbes["C07"] = []string{"c07.same_generation_writers", "c07.patch_race", "c07.delete_vs_upload", "c07.reader_among_writers", "c07.lock_waited", "c07.cancel_fired", "c07.porcupine_ok", "c07.compose_vs_upload", "c07.cross_bucket_copy", "c07.append_by_compose"}
 }
 
 type c07In struct {
@@ -29,6 +29,7 @@ type c07In struct {
 	Op      gOp
 	Name    string
 	Summary string // object summary the op would create (uploads, compose, copy)
+	Raw     string // the bytes the op would store (uploads, compose, copy); append: the bytes appended
 	Desc    string
 	Cancel  bool
 }
@@ -51,6 +52,7 @@ type c07State struct {
 	MaxGen  int64
 	Sum     string // ctype|meta|cc|cd|cl
 	Content string // size|md5|contenthash
+	Raw     string // the bytes (determined by Content; not part of the key)
 }
 
 func (s c07State) key() string {
@@ -133,7 +135,22 @@ func c07Model(states map[string]c07State) porcupine.Model {
 				if out.Proj != parts[0]+"\x00"+sizeMd5(parts[1]) {
 					return false, same
 				}
-				return true, put(c07State{Exists: true, Gen: out.Gen, Metagen: 1, MaxGen: out.Gen, Sum: parts[0], Content: parts[1]})
+				return true, put(c07State{Exists: true, Gen: out.Gen, Metagen: 1, MaxGen: out.Gen, Sum: parts[0], Content: parts[1], Raw: in.Raw})
+			case "append":
+				// compose whose first source is the destination itself: the new content is the
+				// content at the instant the request takes effect plus the appended source
+				if !st.Exists {
+					return out.Status == 404, same
+				}
+				if !ok2xx(out.Status) {
+					return false, same
+				}
+				raw := st.Raw + in.Raw
+				a, b := objSum(&gObj{Content: []byte(raw), ContentType: "text/plain", Metadata: map[string]string{}})
+				if out.Gen <= st.MaxGen || out.Metagen != 1 || out.Proj != a+"\x00"+sizeMd5(b) {
+					return false, same
+				}
+				return true, put(c07State{Exists: true, Gen: out.Gen, Metagen: 1, MaxGen: out.Gen, Sum: a, Content: b, Raw: raw})
 			case "patch":
 				pass, okst := condOutcome(in.Op.Conds)
 				if !st.Exists {
@@ -262,7 +279,7 @@ func runC07(r *Run) {
 			op.Resum = &resumPlan{KnownTotal: true, Chunks: []int{4}}
 		}
 		a, b := objSum(objFromUpload(u))
-		return c07In{Kind: "upload", Op: op, Name: name, Summary: a + "\x00" + b, Desc: op.String()}
+		return c07In{Kind: "upload", Op: op, Name: name, Summary: a + "\x00" + b, Raw: string(u.Content), Desc: op.String()}
 	}
 	// sequential setup for the directed shapes: an initial version with a known generation
 	var g0 int64
@@ -349,13 +366,20 @@ func runC07(r *Run) {
 					op := gOp{Kind: "Delete", Bucket: "bkt", Name: name}
 					in = c07In{Kind: "delete", Op: op, Name: name, Desc: op.String()}
 				case 3:
+					if d.n(3) == 2 {
+						// append by compose: the destination is its own first source
+						op := gOp{Kind: "Compose", Bucket: "bkt", Name: name, Srcs: []string{name, "srcB"}, DstMeta: map[string]interface{}{"contentType": "text/plain"}}
+						in = c07In{Kind: "append", Op: op, Name: name, Raw: "BB", Desc: op.String()}
+						r.Probe("c07.append_by_compose")
+						break
+					}
 					op := gOp{Kind: "Compose", Bucket: "bkt", Name: name, Srcs: []string{"srcA", "srcB", "srcA"}[:1+d.n(3)], DstMeta: map[string]interface{}{"contentType": "text/plain"}}
 					content := ""
 					for _, s := range op.Srcs {
 						content += map[string]string{"srcA": "AAAA", "srcB": "BB"}[s]
 					}
 					a, b := objSum(&gObj{Content: []byte(content), ContentType: "text/plain", Metadata: map[string]string{}})
-					in = c07In{Kind: "compose", Op: op, Name: name, Summary: a + "\x00" + b, Desc: op.String()}
+					in = c07In{Kind: "compose", Op: op, Name: name, Summary: a + "\x00" + b, Raw: content, Desc: op.String()}
 					r.Probe("c07.compose_vs_upload")
 				case 4:
 					src := []upSpec{srcA, srcB, srcX}[d.n(3)] // srcX: copy across buckets
@@ -364,7 +388,7 @@ func runC07(r *Run) {
 					}
 					op := gOp{Kind: "Copy", Bucket: src.Bucket, Name: src.Name, DstB: "bkt", DstN: name}
 					a, b := objSum(objFromUpload(src))
-					in = c07In{Kind: "copy", Op: op, Name: name, Summary: a + "\x00" + b, Desc: op.String()}
+					in = c07In{Kind: "copy", Op: op, Name: name, Summary: a + "\x00" + b, Raw: string(src.Content), Desc: op.String()}
 				case 5:
 					op := gOp{Kind: "Get", Bucket: "bkt", Name: name}
 					in = c07In{Kind: "getmeta", Op: op, Name: name, Desc: op.String()}
